@@ -479,6 +479,15 @@ where
         }
     }
 
+    pub fn from_parts(grm: &'a YaccGrammar<T>, st: &'a StateTable<T>, nstates: usize, max_input: usize) -> Self {
+        let max_rhs = grm.iter_pidxs().map(|p| grm.prod(p).len()).max().unwrap_or(0);
+        Drv {
+            grm,
+            st,
+            red_bound: (max_input + 2) * nstates * (max_rhs + 2) * 4,
+        }
+    }
+
     /// Offer lookahead `la` to the configuration `stack`: perform reductions until the token is
     /// shifted, accepted or refused. On `Error` the stack is left as it was *after* the
     /// reductions performed under this lookahead.
